@@ -811,6 +811,32 @@ class Emitter:
         m = getattr(self, "s_" + k, None)
         if m is not None:
             return m(n, ind)
+        core = n
+        while core.get("kind") in TRANSPARENT:
+            core = core["inner"][0]
+        if core.get("kind") == "CXXThrowExpr":  # `throw E(temporary);` is wrapped in ExprWithCleanups
+            return self.s_CXXThrowExpr(core, ind)
+        if core.get("kind") == "BinaryOperator" and core.get("opcode") == "=" and self.cfg.get("exceptions", True):
+            # `lhs = f(..);` where f may throw: in C++ the store does not happen when f throws. The value goes through
+            # a temporary and is stored only when no exception is in flight.
+            a, b = core["inner"]
+            rct = self.try_ctype(b)
+            if rct is not None and (not rct.startswith("struct ") or rct.endswith("*")) and rct != "void":
+                saved, self.pre = self.pre, []
+                flag0, self.callflag = self.callflag, False
+                rhs = self.E(b)
+                if self.callflag:
+                    lhs = self.E(a)
+                    pre, self.pre = self.pre, saved
+                    self.unit.tmp += 1
+                    tmp = "__v%d" % self.unit.tmp
+                    out = [ind + "{"] + [ind + "  " + p for p in pre]
+                    out.append("%s  %s %s = %s;" % (ind, rct, tmp, rhs))
+                    out += self.exc_check(n, ind + "  ")
+                    out.append("%s  %s = %s;" % (ind, self.paren(lhs), tmp))
+                    out.append(ind + "}")
+                    return out
+                self.pre, self.callflag = saved, flag0
         # expression statement
         saved = self.pre
         self.pre = []
